@@ -149,6 +149,9 @@ impl Debugger {
     pub(super) fn increment_instruction_count(&mut self) {
         // Only used for reporting; must not overflow on long runs
         self.instruction_count = self.instruction_count.saturating_add(1);
+        // The instruction under the breakpoint which paused execution is about to be executed: the
+        // breakpoint must fire again if control comes straight back to it
+        self.current_breakpoint = None;
     }
 
     /// Read and execute user commands, until an [`Action`] is raised.
